@@ -1710,7 +1710,12 @@ Examples:
         def func(x, *args, **kwds):
             xtype = type(x)
             x = asarray(list(x)) #XXX: faster to use array(x, copy=True) ?
-            x[[i for i in index if i < len(x)]] = target
+            n = len(x) # only use the indices (and their targets) that are in range
+            if hasattr(target, '__len__'):
+                at = [(i,t) for (i,t) in zip(index, target) if -n <= i < n]
+                x[[i for (i,t) in at]] = [t for (i,t) in at]
+            else:
+                x[[i for i in index if -n <= i < n]] = target
             if not type(x) is xtype: x = xtype(x) #XXX: xtype(x.tolist()) ?
             return f(x, *args, **kwds)
         func.__wrapped__ = f   #XXX: getattr(f, '__wrapped__', f) ?
